@@ -46,7 +46,9 @@ func genC08(e *emitter, tier string, seed uint64) {
 	shapes := [][]byte{{0x01}, {0x81}, {0x05}, {0x85}, {0x7f}, {0x80}, {0x01, 0x00}, {0x01, 0x80}, {0x01, 0x00, 0x80}, {0xff, 0x00}, {0x12, 0x34, 0x56, 0x78},
 		{0xff, 0xff, 0xff, 0x7f}, {0x81, 0x02, 0x03, 0x84, 0x05}, r.bytes(16), r.bytes(33)}
 	if quick {
-		shapes = shapes[:11]
+		// the long operands stay (digest-sized and larger: an operation may write its result over an operand that is
+		// big enough to hold it); the 5-byte and 16-byte ones are left to the thorough tier
+		shapes = append(shapes[:11:11], r.bytes(20), r.bytes(33))
 	}
 	eras := []int{0, fAfterGenesis}
 	for _, era := range eras {
